@@ -222,6 +222,7 @@ def case_plan(ctx, inp):
     simple = (np.ndim(val) == len(nonint_axes) and all(a == b for a, b in zip(implied, np.shape(val)))
               and all(k != "dask" for k, _, _ in axis_plans))
     rev_impl = [nonint_axes.index(r) for r in reverse]
+    diffed = True   # keep diffing against the model until the first disagreement; always replay the real plan
     for in_key in in_keys:
         coords = in_key[1:]
         task = dsk[("out",) + coords]
@@ -246,19 +247,19 @@ def case_plan(ctx, inp):
             else:
                 exp_bi.append(None)
         touched = isinstance(task, tuple) and len(task) == 4 and callable(task[0])
-        if touched != exp_overlap:
+        if diffed and touched != exp_overlap:
             ctx.disagree("which blocks are touched", [list(coords), exp_overlap], [list(coords), touched])
-            return
+            diffed = False
         if not touched:
             continue
         bi = task[3]
         vi = next(calls)
         got_bi = [_plain(i) for i in bi]
         for a, (e, g) in enumerate(zip(exp_bi, got_bi)):
-            if e is not None and e != g:
+            if diffed and e is not None and e != g:
                 ctx.disagree("block index", [list(coords), a, e], [list(coords), a, g])
-                return
-        if simple:
+                diffed = False
+        if simple and diffed:
             exp_vi = []
             for j, ax in enumerate(nonint_axes):
                 kind, ind, bl = axis_plans[ax]
@@ -281,7 +282,7 @@ def case_plan(ctx, inp):
             got_vi = [_plain(i) for i in vi]
             if exp_vi != got_vi:
                 ctx.disagree("value indices", [list(coords), exp_vi], [list(coords), got_vi])
-                return
+                diffed = False
         # --- replay the block assignment on NumPy (property oracle on the real plan)
         region = tuple(slice(*_cum(ch)[b]) for ch, b in zip(chunks, coords))
         blk = out[region].copy()
